@@ -1,6 +1,373 @@
 /-
-  C20 — property theorems (stub; to be filled in).
+  C20 — AutoMigrate is idempotent and never loses data: the decision logic of migrator/migrator.go over an abstract
+  catalog, under an explicit specification `Faithful reflect` of the dialect's column report.
 -/
-namespace Gorm
+import GormModel.Model.Migrate
+import GormModel.Lemmas.Migrate
+namespace Gorm.Mig
 
-end Gorm
+/-- CORE LEMMA.  For EVERY field declaration, MigrateColumn on the column report of a faithful dialect issues nothing:
+    no AlterColumn, no Create/DropConstraint.  (Case analysis over primary key / type prefix / size / precision /
+    nullability / default by data type / comment / unique.) -/
+theorem C20_migrateColumn_faithful_noop (reflect : FieldDecl → ColumnInfo) (h : Faithful reflect) (f : FieldDecl) :
+    migrateColumn f (reflect f) = [] := by
+  unfold migrateColumn
+  cases f.ignoreMigration with
+  | true => rfl
+  | false => simp [migrateAlter_agrees (h.agrees f), migrateUnique_agrees (h.unique f)]
+
+/-- the column `ci` of the database matches the declaration `f` (only what MigrateColumn can observe) -/
+def ColMatches (f : FieldDecl) (ci : ColumnInfo) : Prop :=
+  Agrees f ci ∧ (ci.unique.2 = true → ci.unique.1 = f.unique)
+
+/-- the catalog already matches model `m`: the table exists, every migrated field has a matching column, every
+    relation / check constraint and every index of the model exists -/
+def ModelMatches (m : ModelDecl) (c : Catalog) : Prop :=
+  ∃ ts, lookup m.table c = some ts ∧
+    (∀ f ∈ m.fields, f.ignoreMigration = true ∨ ∃ ci, lookup f.dbName ts.cols = some ci ∧ ColMatches f ci) ∧
+    (∀ n ∈ m.fks ++ m.checks, n ∈ ts.constraints) ∧ (∀ n ∈ m.indexes, n ∈ ts.indexes)
+
+theorem columnDDL_nil_of_matches (t : Str) (cols : List (Str × ColumnInfo)) (fs : List FieldDecl)
+    (h : ∀ f ∈ fs, f.ignoreMigration = true ∨ ∃ ci, lookup f.dbName cols = some ci ∧ ColMatches f ci) :
+    columnDDL t cols fs = [] := by
+  induction fs with
+  | nil => rfl
+  | cons f r ih =>
+    have hr := ih (fun g hg => h g (by simp [hg]))
+    simp only [columnDDL, hr, List.append_nil]
+    rcases h f (by simp) with hi | ⟨ci, hl, hm⟩
+    · cases hc : lookup f.dbName cols with
+      | none => simp [hi]
+      | some ci => simp [migrateColumn, hi]
+    · simp [hl, migrateColumn, migrateAlter_agrees hm.1, migrateUnique_agrees hm.2]
+
+theorem autoMigrateOne_nil_of_matches (m : ModelDecl) (c : Catalog) (h : ModelMatches m c) : autoMigrateOne m c = [] := by
+  rcases h with ⟨ts, hl, hf, hc, hi⟩
+  simp [autoMigrateOne, hl, columnDDL_nil_of_matches _ _ _ hf, missing_nil_of_subset _ _ hc, missing_nil_of_subset _ _ hi]
+
+/-- PROPERTY, sentence 1: running AutoMigrate on a database that already matches the models issues no statement at
+    all (any number of models, any catalog), and leaves the catalog as it is. -/
+theorem C20_noop_on_matching (reflect : FieldDecl → ColumnInfo) (ms : List ModelDecl) (c : Catalog)
+    (h : ∀ m ∈ ms, ModelMatches m c) : autoMigrate reflect ms c = ([], c) := by
+  induction ms with
+  | nil => rfl
+  | cons m r ih =>
+    have h1 := autoMigrateOne_nil_of_matches m c (h m (by simp))
+    have h2 := ih (fun x hx => h x (by simp [hx]))
+    simp [autoMigrate, h1, applyAll, h2]
+
+theorem lookup_append_none {β} (k : Str) (a : List (Str × β)) (v : β) (h : lookup k a = none) :
+    lookup k (a ++ [(k, v)]) = some v := by
+  induction a with
+  | nil => simp [lookup]
+  | cons p r ih =>
+    rcases p with ⟨k', w⟩
+    by_cases hk : k' = k
+    · simp [lookup, hk] at h
+    · simp only [lookup, hk, if_false] at h
+      simp [lookup, hk, ih h]
+
+theorem lookup_createdCols (reflect : FieldDecl → ColumnInfo) (fs : List FieldDecl) (hnd : (fs.map (·.dbName)).Nodup)
+    (f : FieldDecl) (hf : f ∈ fs) (hi : f.ignoreMigration = false) :
+    lookup f.dbName (createdCols reflect fs) = some (reflect f) := by
+  induction fs with
+  | nil => cases hf
+  | cons g r ih =>
+    simp only [List.map_cons, List.nodup_cons] at hnd
+    rcases List.mem_cons.mp hf with rfl | hr
+    · simp [createdCols, hi, lookup]
+    · have hne : g.dbName ≠ f.dbName := fun e => hnd.1 (e ▸ List.mem_map_of_mem hr)
+      cases hg : g.ignoreMigration with
+      | true => simp [createdCols, hg, ih hnd.2 hr]
+      | false => simp [createdCols, hg, lookup, hne, ih hnd.2 hr]
+
+/-- IDEMPOTENCE on a table AutoMigrate created itself (history migrate(v1) → migrate(v1)): the database produced by
+    CreateTable on a faithful dialect matches the model, so the second run issues nothing. -/
+theorem C20_second_run_after_create (reflect : FieldDecl → ColumnInfo) (h : Faithful reflect) (m : ModelDecl) (c : Catalog)
+    (hnew : lookup m.table c = none) (hnd : (m.fields.map (·.dbName)).Nodup) :
+    autoMigrateOne m c = [.createTable m] ∧
+    autoMigrateOne m (applyAll reflect (autoMigrateOne m c) c) = [] := by
+  have h1 : autoMigrateOne m c = [.createTable m] := by simp [autoMigrateOne, hnew]
+  refine ⟨h1, ?_⟩
+  apply autoMigrateOne_nil_of_matches
+  rw [h1]
+  refine ⟨_, by simpa [applyAll, applyDDL] using lookup_append_none m.table c _ hnew, ?_, ?_, ?_⟩
+  · intro f hf
+    cases hi : f.ignoreMigration with
+    | true => left; rfl
+    | false =>
+      right
+      exact ⟨reflect f, lookup_createdCols reflect m.fields hnd f hf hi, h.agrees f, h.unique f⟩
+  · intro n hn; exact hn
+  · intro n hn; exact hn
+
+/-- `f'` is the old declaration `f`, possibly with a `unique` tag added -/
+def SameOrUniqueAdded (f f' : FieldDecl) : Prop := f' = { f with unique := f'.unique } ∧ (f.unique = true → f'.unique = true)
+
+/-- MigrateColumnUnique never drops a constraint when `unique` was only added to the declaration -/
+theorem migrateUnique_additive (f f' : FieldDecl) (ci : ColumnInfo)
+    (hm : ci.unique.2 = true → ci.unique.1 = f.unique) (hmono : f.unique = true → f'.unique = true) :
+    ∀ a ∈ migrateUnique f' ci, a = .createUnique := by
+  obtain ⟨_, _, _, _, _, _, _, ⟨u, ok⟩⟩ := ci
+  intro a ha
+  simp only [migrateUnique] at ha
+  simp only at hm
+  generalize f'.primaryKey = p at ha
+  generalize f'.unique = u' at ha hmono
+  generalize f.unique = uf at hm hmono
+  revert hm hmono ha
+  cases ok <;> cases u <;> cases p <;> cases u' <;> cases uf <;> simp
+
+/-- PROPERTY, sentence 2 (statements): when every field of the new model that already has a column is an old,
+    matching field (possibly with `unique` added) — i.e. the new model only ADDS fields, indexes, constraints — every
+    statement AutoMigrate issues is CreateTable / AddColumn / CreateConstraint / CreateIndex: no AlterColumn, no
+    DropConstraint. -/
+theorem C20_additive (m' : ModelDecl) (c : Catalog)
+    (hold : ∀ ts, lookup m'.table c = some ts → ∀ f' ∈ m'.fields, ∀ ci, lookup f'.dbName ts.cols = some ci →
+      ∃ f, ColMatches f ci ∧ SameOrUniqueAdded f f') :
+    ∀ d ∈ autoMigrateOne m' c, d.additive = true := by
+  intro d hd
+  unfold autoMigrateOne at hd
+  cases hl : lookup m'.table c with
+  | none => simp [hl] at hd; subst hd; rfl
+  | some ts =>
+    simp only [hl, List.mem_append, List.mem_map] at hd
+    rcases hd with (hcol | ⟨n, _, rfl⟩) | ⟨n, _, rfl⟩
+    · have key : ∀ fs : List FieldDecl, (∀ f' ∈ fs, f' ∈ m'.fields) → ∀ d ∈ columnDDL m'.table ts.cols fs, d.additive = true := by
+        intro fs
+        induction fs with
+        | nil => intro _ d hd; cases hd
+        | cons f' r ih =>
+          intro hsub d hd
+          simp only [columnDDL, List.mem_append] at hd
+          rcases hd with hd | hd
+          · cases hc : lookup f'.dbName ts.cols with
+            | none =>
+              simp only [hc] at hd
+              split at hd
+              · cases hd
+              · simp at hd; subst hd; rfl
+            | some ci =>
+              simp only [hc, List.mem_map] at hd
+              rcases hd with ⟨a, ha, rfl⟩
+              rcases hold ts hl f' (hsub f' (by simp)) ci hc with ⟨f, hm, hsame, hmono⟩
+              have halter : migrateAlter f' ci = false := by
+                rw [hsame]
+                exact (migrateAlter_unique_irrel f ci f'.unique ci.unique).trans (migrateAlter_agrees hm.1)
+              have hall : ∀ a ∈ migrateColumn f' ci, a = .createUnique := by
+                intro a ha
+                simp only [migrateColumn, halter] at ha
+                split at ha
+                · cases ha
+                · exact migrateUnique_additive f f' ci hm.2 hmono a (by simpa using ha)
+              rw [hall a ha]
+              rfl
+          · exact ih (fun g hg => hsub g (by simp [hg])) d hd
+      exact key m'.fields (fun _ h => h) d hcol
+    · rfl
+    · rfl
+
+def project (cols : List Str) (r : Row) : Row := r.filter (fun p => decide (p.1 ∈ cols))
+
+theorem lookup_append_some {β} (k : Str) (a b : List (Str × β)) (v : β) (h : lookup k a = some v) :
+    lookup k (a ++ b) = some v := by
+  induction a with
+  | nil => simp [lookup] at h
+  | cons p r ih =>
+    rcases p with ⟨k', w⟩
+    by_cases hk : k' = k
+    · simpa [lookup, hk] using h
+    · simp only [lookup, hk, if_false] at h
+      simp [lookup, hk, ih h]
+
+/-- PROPERTY, sentence 2 (data): an additive statement keeps every existing row and every value of the existing
+    columns `cols` (an added column is new: its name is not among `cols`), in the same order. -/
+theorem C20_rows_preserved (dflt : FieldDecl → Int) (d : DDL) (hadd : d.additive = true) (cols : List Str)
+    (hnew : ∀ t f, d = .addColumn t f → f.dbName ∉ cols) (db : Data) (t : Str) (rows : List Row)
+    (h : lookup t db = some rows) :
+    ∃ rows', lookup t (applyData dflt d db) = some rows' ∧ rows'.map (project cols) = rows.map (project cols) := by
+  cases d with
+  | createTable m => exact ⟨rows, lookup_append_some _ _ _ _ h, rfl⟩
+  | addColumn t2 f =>
+    by_cases ht : t = t2
+    · subst ht
+      refine ⟨rows.map (fun r => r ++ [(f.dbName, dflt f)]), ?_, ?_⟩
+      · simp [applyData, lookup_update_same, h]
+      · have hn := hnew t f rfl
+        simp [project, List.filter_append, hn]
+    · exact ⟨rows, by simp [applyData, lookup_update_other _ _ _ _ ht, h], rfl⟩
+  | alterColumn _ _ => cases hadd
+  | dropUnique _ _ => cases hadd
+  | createUnique _ _ => exact ⟨rows, h, rfl⟩
+  | createConstraint _ _ => exact ⟨rows, h, rfl⟩
+  | createIndex _ _ => exact ⟨rows, h, rfl⟩
+
+/-- OBSERVATION (kernel-checked, reproduced on the real code by the E2E run, not a violation of the property text):
+    a field declared `unique` that is ADDED to an existing table gets its column without the constraint (AddColumn's
+    DDL text has no UNIQUE); only the NEXT AutoMigrate creates it.  One run does not always reach a matching database. -/
+def uField : FieldDecl :=
+  { dbName := ['n'], ignoreMigration := false, primaryKey := false, dataTypeSql := "text".toList, size := 0, precision := 0,
+    notNull := false, hasDefault := false, defaultIface := false, defaultValue := [], defaultExplained := [],
+    gtype := .other, comment := [], unique := true }
+def uReflect (f : FieldDecl) : ColumnInfo :=
+  { typeName := "text".toList, aliases := [], length := (0, false), decimal := (0, false), nullable := (!f.notNull, true),
+    dflt := (f.defaultValue, currentDefaultNotNull f), comment := ([], false), unique := (f.unique, true) }
+def uModel : ModelDecl := { table := ['t'], fields := [uField], fks := [], checks := [], indexes := [] }
+def uCatalog : Catalog := [(['t'], { cols := [], constraints := [], indexes := [] })]
+
+theorem C20_added_unique_second_run_counterexample :
+    autoMigrateOne uModel uCatalog = [.addColumn ['t'] uField] ∧
+    autoMigrateOne uModel (applyAll uReflect (autoMigrateOne uModel uCatalog) uCatalog) = [.createUnique ['t'] uField] ∧
+    autoMigrateOne uModel (applyAll uReflect [.createUnique ['t'] uField]
+      (applyAll uReflect (autoMigrateOne uModel uCatalog) uCatalog)) = [] := by
+  decide
+
+/-- FINDING F20 at model level: with the column report a faithful dialect gives for the DDL gorm emitted
+    (`DEFAULT 7` for the tag `default:007`: the parsed value is written, the tag text is compared), MigrateColumn
+    alters the column on every run. -/
+def respelled : FieldDecl :=
+  { dbName := ['n'], ignoreMigration := false, primaryKey := false, dataTypeSql := "integer".toList, size := 64, precision := 0,
+    notNull := false, hasDefault := true, defaultIface := true, defaultValue := "007".toList, defaultExplained := ['7'],
+    gtype := .other, comment := [], unique := false }
+def respelledReport : ColumnInfo :=
+  { typeName := "integer".toList, aliases := [], length := (0, false), decimal := (0, false), nullable := (true, true),
+    dflt := (['7'], true), comment := ([], false), unique := (false, true) }
+
+theorem C20_respelled_default_counterexample : migrateColumn respelled respelledReport = [.alter] := by decide
+
+/-- … and outside that pattern (the reported default IS the declared text) the same column is left alone -/
+theorem C20_respelled_default_partial (f : FieldDecl) (ci : ColumnInfo) (h : Agrees f ci)
+    (hu : ci.unique.2 = true → ci.unique.1 = f.unique) : migrateColumn f ci = [] := by
+  unfold migrateColumn
+  cases f.ignoreMigration with
+  | true => rfl
+  | false => simp [migrateAlter_agrees h, migrateUnique_agrees hu]
+
+/-! ### ParseIndexes -/
+
+theorem addEntry_names (e : IdxEntry) (l : List Index) :
+    (addEntry e l).map (·.name) = if e.name ∈ l.map (·.name) then l.map (·.name) else l.map (·.name) ++ [e.name] := by
+  induction l with
+  | nil => simp [addEntry, mergeEntry]
+  | cons i r ih =>
+    by_cases h : i.name = e.name
+    · simp [addEntry, h, mergeEntry]
+    · have h' : ¬ e.name = i.name := fun x => h x.symm
+      simp only [addEntry, h, if_false, List.map_cons, ih, List.mem_cons, h', false_or]
+      split <;> simp
+
+/-- ParseIndexes yields ONE index per name (any number of fields / tags / shared composite names) -/
+theorem C20_indexes_once (es : List IdxEntry) : ((parseIndexes es).map (·.name)).Nodup := by
+  unfold parseIndexes
+  have key : ∀ (acc : List Index), (acc.map (·.name)).Nodup →
+      ((es.foldl (fun acc e => addEntry e acc) acc).map (·.name)).Nodup := by
+    induction es with
+    | nil => intro acc h; exact h
+    | cons e r ih =>
+      intro acc h
+      apply ih
+      rw [addEntry_names]
+      split
+      · exact h
+      · rename_i hn
+        exact List.nodup_append.mpr ⟨h, by simp, by intro a ha b hb; simp at hb; subst hb; intro e; subst e; exact hn ha⟩
+  exact key [] (by simp)
+
+def SortedPrio (l : List (Str × Int)) : Prop := l.Pairwise (fun a b => a.2 ≤ b.2)
+
+theorem insertByPriority_mem (x y : Str × Int) (l : List (Str × Int)) :
+    y ∈ insertByPriority x l ↔ y = x ∨ y ∈ l := by
+  induction l with
+  | nil => simp [insertByPriority]
+  | cons z r ih =>
+    simp only [insertByPriority]
+    split
+    · simp
+    · simp only [List.mem_cons, ih]
+      constructor
+      · rintro (h | h | h) <;> simp [h]
+      · rintro (h | h | h) <;> simp [h]
+
+theorem insertByPriority_sorted (x : Str × Int) (l : List (Str × Int)) (h : SortedPrio l) :
+    SortedPrio (insertByPriority x l) := by
+  induction l with
+  | nil => simp [insertByPriority, SortedPrio]
+  | cons z r ih =>
+    unfold SortedPrio at h ⊢
+    rw [List.pairwise_cons] at h
+    simp only [insertByPriority]
+    split
+    · rename_i hlt
+      refine List.pairwise_cons.mpr ⟨?_, List.pairwise_cons.mpr h⟩
+      intro b hb
+      rcases List.mem_cons.mp hb with rfl | hb
+      · omega
+      · have := h.1 b hb; omega
+    · rename_i hge
+      refine List.pairwise_cons.mpr ⟨?_, ih h.2⟩
+      intro b hb
+      rcases (insertByPriority_mem x b r).mp hb with rfl | hb
+      · omega
+      · exact h.1 b hb
+
+theorem addEntry_sorted (e : IdxEntry) (l : List Index) (h : ∀ i ∈ l, SortedPrio i.fields) :
+    ∀ i ∈ addEntry e l, SortedPrio i.fields := by
+  induction l with
+  | nil =>
+    intro i hi
+    simp only [addEntry, List.mem_singleton] at hi
+    subst hi
+    simp [mergeEntry, emptyIndex, insertByPriority, SortedPrio]
+  | cons j r ih =>
+    intro i hi
+    simp only [addEntry] at hi
+    split at hi
+    · rcases List.mem_cons.mp hi with rfl | hi
+      · exact insertByPriority_sorted _ _ (h j (by simp))
+      · exact h i (by simp [hi])
+    · rcases List.mem_cons.mp hi with rfl | hi
+      · exact h _ (by simp)
+      · exact ih (fun k hk => h k (by simp [hk])) i hi
+
+/-- … and the fields of every index are in priority order -/
+theorem C20_index_fields_by_priority (es : List IdxEntry) : ∀ i ∈ parseIndexes es, SortedPrio i.fields := by
+  unfold parseIndexes
+  have key : ∀ (acc : List Index), (∀ i ∈ acc, SortedPrio i.fields) →
+      ∀ i ∈ es.foldl (fun acc e => addEntry e acc) acc, SortedPrio i.fields := by
+    induction es with
+    | nil => intro acc h; exact h
+    | cons e r ih => intro acc h; exact ih _ (addEntry_sorted e acc h)
+  exact key [] (by simp)
+
+/-! ### non-vacuity -/
+
+/-- `uReflect` (an SQLite-like report) satisfies `Faithful` for every declaration whose type is `text`; here: the
+    hypotheses of the core lemma are satisfiable by a non-trivial value -/
+example : Agrees { uField with notNull := true, hasDefault := true, defaultIface := true, defaultValue := ['x'], defaultExplained := "\"x\"".toList }
+    (uReflect { uField with notNull := true, hasDefault := true, defaultIface := true, defaultValue := ['x'] }) := by
+  refine ⟨?_, ?_, ?_, ?_, ?_, ?_, ?_⟩
+  · exact List.isPrefixOf_iff_prefix.mp (by decide)
+  · right; exact ⟨by decide, Or.inl rfl⟩
+  · intro h; cases h
+  · intro _; rfl
+  · rfl
+  · intro _; rfl
+  · intro h; cases h
+
+example : ModelMatches uModel [(['t'], { cols := [(['n'], uReflect uField)], constraints := [], indexes := [] })] := by
+  refine ⟨_, rfl, ?_, by simp [uModel], by simp [uModel]⟩
+  intro f hf
+  simp [uModel] at hf
+  subst hf
+  right
+  refine ⟨_, rfl, ⟨?_, ?_, ?_, ?_, ?_, ?_, ?_⟩, ?_⟩
+  · exact List.isPrefixOf_iff_prefix.mp (by decide)
+  · right; exact ⟨by decide, Or.inl rfl⟩
+  · intro h; cases h
+  · intro _; rfl
+  · rfl
+  · intro h; cases h
+  · intro h; cases h
+  · intro _; rfl
+
+end Gorm.Mig
